@@ -51,6 +51,19 @@ def _mods():
     return bb, es, sh, gpt, gpyreg
 
 
+class _TargetObject:
+    """A callable *object* as target that cannot be deep-copied (holds a lock, like an open handle would)."""
+
+    def __init__(self, f):
+        import threading
+
+        self.f = f
+        self.lock = threading.Lock()
+
+    def __call__(self, x):
+        return self.f(x)
+
+
 class Patch:
     """Rebinding table; missing seam => HarnessError; restored in reverse order."""
 
@@ -227,7 +240,7 @@ def build_problem(run):
     lb, ub, plb, pub, logc = P.geometry(geo, D)
     x0 = P.start_point(job.get("x0", "in"), geo, D)
     raw = P.constraint(job.get("cons"), geo, D)
-    consf = None if raw is None else (lambda X: np.asarray(raw(X)) > 0)  # boolean oracle: violated <=> value > 0 / True
+    consf = None if raw is None else (lambda X: np.asarray(raw(X)).reshape(-1) > 0)  # boolean oracle: violated <=> value > 0 / True
     run.lb, run.ub, run.logc, run.consf = lb, ub, logc, consf
 
     cons_wrapped = None
@@ -682,6 +695,8 @@ def execute(job):
         opts = P.base_options(run.mode, job.get("seed", 1), job.get("opts"))
         run.user_opts = dict(opts)
         install(run, patch)
+        if job.get("target_obj"):
+            f = _TargetObject(f)
         try:
             b = bb.BADS(f, options=dict(opts), **kw)
             run.bads = b
